@@ -314,7 +314,9 @@ func parseBlock(nativeBlock *hclsyntax.Block, from, leadComments, lineComments, 
 		children.AppendNode(in)
 	}
 
-	_, labelsNode, from := parseBlockLabels(nativeBlock, from)
+	beforeLabels, labelsNode, from := parseBlockLabels(nativeBlock, from)
+	// (tokens between the type name and the first label can only be comments)
+	children.AppendUnstructuredTokens(beforeLabels.Tokens())
 	block.labels = labelsNode
 	children.AppendNode(labelsNode)
 
